@@ -1,11 +1,11 @@
 from dataclasses import dataclass, replace, field
-from itertools import dropwhile
 from typing import Optional, Type
 
 import numpy as np
 from numpy import ndarray
 
 from ..element import Element, ElementQuad1
+from ..generic_utils import OrientedBoundary
 from .mesh_2d import Mesh2D
 from .mesh_tri_1 import MeshTri1
 
@@ -186,13 +186,25 @@ class MeshQuad1(Mesh2D):
         boundaries = None
         if self.boundaries:
             boundaries = {}
-            for k in self.boundaries:
-                slots = enumerate(mesh.facets.T)
-                boundaries[k] = np.array([
-                    next(dropwhile(lambda s: (not np.array_equal(f, s[1])),
-                                   slots))[0]
-                    for f in self.facets.T[np.sort(self.boundaries[k])]],
-                    dtype=np.int32)
+            # the facets of both meshes are sorted: look up each facet of
+            # the quadrilateral mesh among the facets of the triangular mesh
+            nv = p.shape[1]
+            keys = mesh.facets[0].astype(np.int64) * nv + mesh.facets[1]
+            for k, ixs in self.boundaries.items():
+                order = np.argsort(ixs, kind='stable')
+                facets = self.facets[:, np.asarray(ixs)[order]]
+                newf = np.searchsorted(
+                    keys,
+                    facets[0].astype(np.int64) * nv + facets[1],
+                ).astype(np.int32)
+                if isinstance(ixs, OrientedBoundary):
+                    # the triangles split from the quadrilateral c have the
+                    # indices c, c + nt, ...
+                    cells = self.f2t[ixs.ori[order], np.asarray(ixs)[order]]
+                    ori = mesh.f2t[0, newf] % nt != cells
+                    boundaries[k] = OrientedBoundary(newf, ori)
+                else:
+                    boundaries[k] = newf
 
         if self._subdomains or self._boundaries:
             mesh = replace(
